@@ -14,6 +14,7 @@
  *   bigmalloc <stp> <nb> <N> <klen> <vlen|-1>               -> bigmalloc <rc>
  *   fn2uri   <unix> <text>                                  -> fn2uri <rc> <text> <guard>
  *   uri2fn   <unix> <absdoc> <text>                         -> uri2fn <rc> <text> <guard>
+ *   parseok  <text>                                         -> parseok <rc of uriParseSingleUri>
  * ex = 0 selects the entry point without flags (uriComposeQuery, uriDissectQueryMalloc, ...).
  * mm = 0 default memory manager, 1 = counting memory manager through the ...Mm entry points.
  */
@@ -333,6 +334,18 @@ static void op_uri2fn(void) {
 	free(in); free(out);
 }
 
+static void op_parseok(void) {
+	size_t n = text_len(fld[1]);
+	CH *in = malloc(n * sizeof(CH) + 1);
+	text_decode(fld[1], in);
+	T(Uri) uri;
+	const CH *errpos = NULL;
+	int rc = F(ParseSingleUriEx)(&uri, in, in + n, &errpos);
+	printf("parseok %d", rc);
+	if (rc == 0) F(FreeUriMembers)(&uri);
+	free(in);
+}
+
 int main(void) {
 	char *line = NULL;
 	size_t cap = 0;
@@ -351,6 +364,7 @@ int main(void) {
 		else if (!strcmp(op, "bigmalloc")) op_big(1);
 		else if (!strcmp(op, "fn2uri")) op_fn2uri();
 		else if (!strcmp(op, "uri2fn")) op_uri2fn();
+		else if (!strcmp(op, "parseok")) op_parseok();
 		else printf("?unknown-op %s", op);
 		putchar('\n');
 	}
